@@ -214,7 +214,14 @@ func campaignC16(p *Parser, req *Request, resp *Response) {
 		if countKnown && r.ExprCnt > n+1 {
 			viol(n, "budget-exceeded", fmt.Sprintf("%d expressions were evaluated", r.ExprCnt), nil)
 		}
-		mustExhaust := ticksKnown && !refExhausted && n < N || refExhausted && n < ref
+		// every code-block invocation is itself one evaluated expression, so even
+		// without a readable clock: more than n events means more than n
+		// expressions, and a reference with more than n events cannot fit in n
+		if uint64(len(hist)) > n {
+			viol(n, "budget-exceeded", fmt.Sprintf("%d code blocks ran, each of which is at least one evaluated expression", len(hist)), nil)
+			continue
+		}
+		mustExhaust := ticksKnown && !refExhausted && n < N || refExhausted && n < ref || !refExhausted && uint64(len(refHist)) > n
 		mustEqual := ticksKnown && !refExhausted && n >= N
 		if escapedBudget {
 			resp.stat("budget_panic_escaped", 1)
